@@ -88,14 +88,35 @@ pub fn render(c: &Case) -> Rendered {
 
 pub fn check_rendered(r: &Rendered) -> Result<(), Failure> {
     let art = || serde_json::to_value(r).unwrap();
-    for cached in [false, true] {
-        let cfg = if cached { "cached" } else { "uncached" };
+    for (cached, preload) in [(false, false), (true, false), (true, true), (false, true)] {
+        let cfg = match (cached, preload) {
+            (false, false) => "uncached",
+            (true, false) => "cached",
+            (true, true) => "cached, object streams first loaded as plain streams",
+            (false, true) => "uncached, object streams first loaded as plain streams",
+        };
         let f: AnyFile = open(&r.file, cached, false, b"").map_err(|e| Failure::new(format!("c11:load-error:{}", errs::root_kind(&e)), format!("{} load failed: {:?}", cfg, e), art()))?;
         with_file!(f, file => {
             let resolver = file.resolver();
+            if preload {
+                // what a tool listing all streams does: the object-stream objects are loaded as ordinary streams first
+                for n in [10u64, 11] {
+                    let _ = resolver.get(pdf::object::Ref::<Stream<()>>::from_id(n)).map(|s| Stream::data(&s, &resolver).map(|d| d.len()));
+                }
+            }
             for (cn, dn, v) in &r.pairs {
                 let kind = v.kind();
-                let d = resolver.resolve(PlainRef { id: *dn, gen: 0 }).map_err(|e| Failure::new(format!("c11:direct-error:{}", kind), format!("{}: direct twin {} of {:?}: {:?}", cfg, dn, v, e), art()))?;
+                let d = match resolver.resolve(PlainRef { id: *dn, gen: 0 }) {
+                    Ok(d) => d,
+                    Err(e) if v.depth() > 16 => {
+                        // beyond the parser's nesting limit: the compressed twin must be refused the same way
+                        match resolver.resolve(PlainRef { id: *cn, gen: 0 }) {
+                            Err(e2) if errs::root_kind(&e2) == errs::root_kind(&e) => continue,
+                            other => return Err(Failure::new(format!("c11:nesting-limit-differs:{}", kind), format!("{}: direct twin {} (nesting depth {}) is refused with {}, compressed object {} gives {:?}", cfg, dn, v.depth(), errs::root_kind(&e), cn, other.map(|p| p.get_debug_name()).map_err(|e| errs::root_kind(&e))), art())),
+                        }
+                    }
+                    Err(e) => return Err(Failure::new(format!("c11:direct-error:{}", kind), format!("{}: direct twin {} of {:?}: {:?}", cfg, dn, v, e), art())),
+                };
                 let dv = from_primitive(&d, Some(&resolver)).map_err(|m| Failure::new("c11:stream-data", m, art()))?;
                 if canon(&dv) != canon(v) {
                     return Err(Failure::new(format!("c11:direct-differs:{}", kind), format!("{}: direct object {} wrote {:?} read {:?}", cfg, dn, v, dv), art()));
@@ -186,6 +207,32 @@ fn kind_samples() -> Vec<Val> {
 pub fn run(ctx: &Ctx) {
     let cases = ctx.tier.pick(4_000, 300_000);
     ctx.run_cases("generated", cases, case_strategy, |c, info| run_case(c, info));
+    // containers nested 12-23 deep (around the parser's nesting limit), three shapes, every position
+    ctx.run_enum(
+        "nesting-depth",
+        12 * 3 * 3 * 2,
+        |mut i| {
+            let depth = 12 + (i % 12) as usize;
+            i /= 12;
+            let shape = [0u32, u32::MAX, 0xAAAA_AAAA][(i % 3) as usize];
+            i /= 3;
+            let pos = i % 3;
+            i /= 3;
+            let trailing_ws = i % 2 == 1;
+            let v = valgen::chain(depth, shape, Val::Int(7));
+            let filler = |k: i64| Val::dict(vec![("F", Val::Int(k))]);
+            let members = match pos {
+                0 => vec![v, filler(1), filler(2)],
+                1 => vec![filler(1), v, filler(2)],
+                _ => vec![filler(1), filler(2), v],
+            };
+            Case { members, objstm_chain: (depth % 6) as u8, trailing_ws, stream_data: b"stream data".to_vec(), stream_chain: 0, tape: vec![], length_in_second_objstm: true }
+        },
+        |c, info| {
+            info.label(format!("nesting/{}", c.members.iter().map(|m| m.depth()).max().unwrap_or(0)));
+            run_case(c, info)
+        },
+    );
     // exhaustive: kind sample x position (first, middle, last) x trailing ws x objstm filter x length-objstm
     let kinds = kind_samples();
     let nk = kinds.len() as u64;
@@ -216,4 +263,4 @@ pub fn run(ctx: &Ctx) {
     );
 }
 
-pub const RULE: &str = "cases = files from the harness writer holding 1-6 values both as members of an object stream (any position, with/without trailing white-space, 6 filter chains) and as ordinary indirect objects, plus three identical streams whose /Length is a direct integer, a reference to a direct integer, and a reference to an integer inside an object stream; exhaustive over 19 kind samples x position x trailing x filter x length placement; oracle = resolve(compressed) == resolve(direct twin) == written value, raw and decoded stream data equal across /Length storages, cached and uncached; non-trivial = a non-container member or a last member without trailing white-space; distinct by file bytes";
+pub const RULE: &str = "cases = files from the harness writer holding 1-6 values both as members of an object stream (any position, with/without trailing white-space, 6 filter chains) and as ordinary indirect objects, plus three identical streams whose /Length is a direct integer, a reference to a direct integer, and a reference to an integer inside an object stream; exhaustive over 19 kind samples x position x trailing x filter x length placement, and over containers nested 12-23 deep x 3 shapes x position; each file read uncached and cached, with and without the object-stream objects first loaded as ordinary streams; oracle = resolve(compressed) == resolve(direct twin) == written value, raw and decoded stream data equal across /Length storages, cached and uncached; non-trivial = a non-container member or a last member without trailing white-space; distinct by file bytes";
